@@ -6,6 +6,7 @@
 // One universe per pool flavour; the first operation picks the configuration (element size x
 // capacity), so all configurations are explored by one search (few BFS levels, wide frontiers).
 #include "mc.hpp"
+#include <algorithm>
 #include <cstring>
 #include <igris/container/pool.h>
 #include <igris/container/static_object_pool.h>
@@ -1222,6 +1223,307 @@ static void zones_large_case()
     mc::outcome(mc::fmt("%zu+%zu %s %s", zp[0], zp[1], TIM[tim], failed ? "violation" : "ok"));
 }
 
+// ---------------------------------------------------------------- re-entrant element constructors / destructors
+// An element whose constructor takes further objects from the SAME pool (a tree node creating its children) and whose
+// destructor gives them back: user code that runs inside create()/destroy() and calls the pool again.
+struct Node;
+struct NodePool
+{
+    virtual ~NodePool() {}
+    virtual Node *create(int kids) = 0;
+    virtual void destroy(Node *) = 0;
+    virtual size_t avail() = 0;
+    virtual struct pool_head *freelist() = 0;
+    virtual char *zone() = 0;
+    size_t cap = 0, esz = 0;
+};
+struct NodeReg
+{
+    std::map<const Node *, int> alive; // node -> number of children it asked for
+    vector<string> errs;
+    long ctors = 0, dtors = 0;
+    NodePool *pool = nullptr;
+};
+static NodeReg *g_nreg = nullptr;
+static const uint64_t NODE_MAGIC = 0x9E3779B97F4A7C15ull;
+
+struct Node
+{
+    uint64_t magic; // self-check word: first pointer-sized word of the cell
+    Node *kid[2];
+    int want, nk;
+    explicit Node(int kids) : want(kids), nk(0)
+    {
+        g_nreg->ctors++;
+        if (g_nreg->alive.count(this))
+            g_nreg->errs.push_back("overlap: an object was constructed on top of a live object (nested create() returned a cell that is in use)");
+        g_nreg->alive[this] = kids;
+        magic = NODE_MAGIC ^ (uint64_t)(uintptr_t)this;
+        kid[0] = kid[1] = nullptr;
+        for (int i = 0; i < kids; i++)
+        {
+            Node *k = g_nreg->pool->create(0); // re-enters the pool while this object is under construction
+            if (k)
+                kid[nk++] = k;
+        }
+    }
+    ~Node()
+    {
+        g_nreg->dtors++;
+        if (!g_nreg->alive.count(this))
+            g_nreg->errs.push_back("lifetime: destructor ran on an object that is not alive");
+        else if (magic != (NODE_MAGIC ^ (uint64_t)(uintptr_t)this))
+            g_nreg->errs.push_back("object_overwritten_before_destruction: the destructor found the object's first word changed");
+        g_nreg->alive.erase(this);
+        for (int i = 0; i < nk; i++)
+            g_nreg->pool->destroy(kid[i]); // re-enters the pool from inside destroy()
+        magic = 0;
+        kid[0] = kid[1] = nullptr;
+    }
+    Node(const Node &) = delete;
+};
+template <size_t N> struct NodePoolImpl : NodePool
+{
+    typedef igris::static_object_pool<Node, N> P;
+    P *p;
+    NodePoolImpl()
+    {
+        p = new P;
+        cap = N;
+        esz = sizeof(typename P::storage_type);
+    }
+    ~NodePoolImpl() { delete p; }
+    Node *create(int kids) override { return p->create(kids); }
+    void destroy(Node *n) override { p->destroy(n); }
+    size_t avail() override { return p->avail(); }
+    struct pool_head *freelist() override { return p->freelist(); }
+    char *zone() override { return (char *)p->storage.data(); }
+};
+
+struct NestedModel : mc::Model
+{
+    static const int MAXN = 5;
+    std::unique_ptr<NodePool> np;
+    NodeReg reg;
+    int conf = -1;
+    vector<int> role; // per cell: -1 free, -2 child, k>=0: root that asked for k children
+    vector<vector<int>> kids; // per root cell: cells of its children
+    int ncaps() { return (mc::thorough() ? 5 : 4) + 1; } // capacities 0..4 (5)
+    // op table: init[capacity 0..MAXN] | create(0..2 children) | destroy(root in cell 0..MAXN-1)
+    int nops() override { return (MAXN + 1) + 3 + MAXN; }
+    string opname(int o) override
+    {
+        if (o <= MAXN)
+            return mc::fmt("init[static_object_pool<Node,%d>]", o);
+        o -= MAXN + 1;
+        if (o < 3)
+            return mc::fmt("create(node whose constructor creates %d children from the same pool)", o);
+        return mc::fmt("destroy(root in cell %d; its destructor destroys its children)", o - 3);
+    }
+    int nlive()
+    {
+        int n = 0;
+        for (int r : role)
+            n += r != -1;
+        return n;
+    }
+    int cell_of(const void *q)
+    {
+        char *z = np->zone();
+        const char *c = (const char *)q;
+        if (!z || c < z || c >= z + np->cap * np->esz || (c - z) % np->esz)
+            return -1;
+        return (int)((c - z) / np->esz);
+    }
+    bool walk(vector<int> &ord, string &why)
+    {
+        ord.clear();
+        struct slist_head *hd = &np->freelist()->free_blocks;
+        for (struct slist_head *it = hd->next; it != hd; it = it->next)
+        {
+            int c = cell_of(it);
+            if (c < 0)
+            {
+                why = mc::fmt("free-list entry #%zu is not a cell of the pool", ord.size());
+                return false;
+            }
+            if (ord.size() >= np->cap)
+            {
+                why = "free list is longer than the capacity (cycle)";
+                return false;
+            }
+            ord.push_back(c);
+        }
+        return true;
+    }
+    string state_str()
+    {
+        vector<int> ord;
+        string why;
+        bool ok = walk(ord, why);
+        string s = "free list [" + ints(ord) + (ok ? "] cells [" : "...CORRUPT] cells [");
+        for (int r : role)
+            s += r == -1 ? "free " : r == -2 ? "child " : mc::fmt("root(%d) ", r);
+        return s + "]";
+    }
+    bool bad(const char *cls, int o, const string &w)
+    {
+        mc::violation(string("C10.static_object_pool_nested.") + cls + "." + w.substr(0, w.find(':')), "after %s: %s; %s", opname(o).c_str(), w.c_str(), state_str().c_str());
+        return true;
+    }
+    bool finish(const char *cls, int o)
+    {
+        if (!reg.errs.empty())
+            return bad(cls, o, reg.errs[0]);
+        vector<int> ord;
+        string why;
+        if (!walk(ord, why))
+            return bad(cls, o, "free_list_corrupt: " + why);
+        for (int c : ord)
+            if (role[c] != -1)
+                return bad(cls, o, mc::fmt("live_cell_on_free_list: live cell %d is on the free list", c));
+        size_t want = np->cap - nlive();
+        if (np->avail() != want || ord.size() != want)
+            return bad(cls, o, mc::fmt("count: avail()=%zu, free list holds %zu cells; capacity %zu - live %d = %zu", np->avail(), ord.size(), np->cap, nlive(), want));
+        if (reg.alive.size() != (size_t)nlive())
+            return bad(cls, o, mc::fmt("lifetime: %zu objects alive, %d cells live", reg.alive.size(), nlive()));
+        // contents of every live object: self-check word, and the children a root holds are the model's
+        for (size_t c = 0; c < role.size(); c++)
+        {
+            if (role[c] == -1)
+                continue;
+            Node *n = (Node *)(np->zone() + c * np->esz);
+            if (n->magic != (NODE_MAGIC ^ (uint64_t)(uintptr_t)n) || !reg.alive.count(n))
+                return bad(cls, o, mc::fmt("contents: live object in cell %zu changed", c));
+            if (role[c] >= 0)
+            {
+                if (n->nk != (int)kids[c].size())
+                    return bad(cls, o, mc::fmt("contents: root in cell %zu holds %d children, the model %zu", c, n->nk, kids[c].size()));
+                for (int i = 0; i < n->nk; i++)
+                    if (cell_of(n->kid[i]) != kids[c][i])
+                        return bad(cls, o, mc::fmt("contents: child %d of the root in cell %zu changed", i, c));
+            }
+        }
+        for (size_t i = 1; i < ord.size(); i++)
+            if (ord[i] > ord[i - 1])
+            {
+                mc::nontrivial();
+                break;
+            }
+        return true;
+    }
+    template <size_t N> NodePool *mk() { return new NodePoolImpl<N>; }
+    bool apply(int o) override
+    {
+        g_nreg = &reg;
+        int o0 = o;
+        if (o <= MAXN)
+        {
+            if (conf >= 0 || o >= ncaps())
+                return false;
+            conf = o;
+            mc::crash_context("C10.static_object_pool_nested.init");
+            np.reset(o == 0 ? mk<0>() : o == 1 ? mk<1>() : o == 2 ? mk<2>() : o == 3 ? mk<3>() : o == 4 ? mk<4>() : mk<5>());
+            reg.pool = np.get();
+            role.assign(np->cap, -1);
+            kids.assign(np->cap, {});
+            return finish("init", o0);
+        }
+        if (conf < 0)
+            return false;
+        o -= MAXN + 1;
+        if (o < 3)
+        {
+            int k = o;
+            int freec = (int)np->cap - nlive();
+            const char *cls = freec == 0 ? "create_exhausted" : k == 0 ? "create" : freec - 1 < k ? "create_nested_exhausting" : "create_nested";
+            mc::crash_context("C10.static_object_pool_nested.%s", cls);
+            if (k > 0 || freec == 0)
+                mc::nontrivial(); // the constructor re-enters the pool / the pool is exhausted (possibly by the constructor itself)
+            long c0 = reg.ctors;
+            Node *r = np->create(k);
+            if (!reg.errs.empty())
+                return bad(cls, o0, reg.errs[0]);
+            if (freec == 0)
+            {
+                if (r)
+                    return bad(cls, o0, "overlap: create() on an exhausted pool returned a block instead of null");
+                if (reg.ctors != c0)
+                    return bad(cls, o0, "lifetime: create() returned null but ran a constructor");
+                mc::outcome("null");
+                return finish(cls, o0);
+            }
+            if (!r)
+                return bad(cls, o0, mc::fmt("null_before_capacity: create() returned null with %d of %zu cells live", nlive(), np->cap));
+            int want_k = std::min(k, freec - 1);
+            vector<const void *> got{r};
+            for (int i = 0; i < r->nk && i < 2; i++)
+                got.push_back(r->kid[i]);
+            if (r->nk != want_k)
+                return bad(cls, o0, mc::fmt("null_before_capacity: the constructor obtained %d children, %d cells were free for them (it asked for %d)", r->nk, freec - 1, k));
+            if (reg.ctors != c0 + 1 + want_k)
+                return bad(cls, o0, mc::fmt("lifetime: create() ran %ld constructors, expected %d", reg.ctors - c0, 1 + want_k));
+            vector<int> cells;
+            for (const void *q : got)
+            {
+                int c = cell_of(q);
+                if (c < 0 || (uintptr_t)q % alignof(Node))
+                    return bad(cls, o0, "outside_zone: a block returned during create() is not an aligned cell of the pool");
+                if (role[c] != -1 || std::find(cells.begin(), cells.end(), c) != cells.end())
+                    return bad(cls, o0, mc::fmt("overlap: cell %d was handed out while it is live (nested create() during construction)", c));
+                cells.push_back(c);
+            }
+            role[cells[0]] = k;
+            kids[cells[0]].assign(cells.begin() + 1, cells.end());
+            for (size_t i = 1; i < cells.size(); i++)
+                role[cells[i]] = -2;
+            mc::outcome(mc::fmt("root %d kids %d", cells[0], r->nk));
+            return finish(cls, o0);
+        }
+        o -= 3;
+        if (o >= (int)np->cap || role[o] < 0)
+            return false;
+        const char *cls = kids[o].empty() ? "destroy" : "destroy_nested";
+        mc::crash_context("C10.static_object_pool_nested.%s", cls);
+        if (!kids[o].empty())
+            mc::nontrivial(); // the destructor re-enters destroy()
+        long d0 = reg.dtors;
+        long expect = 1 + (long)kids[o].size();
+        Node *n = (Node *)(np->zone() + o * np->esz);
+        for (int c : kids[o])
+            role[c] = -1;
+        kids[o].clear();
+        role[o] = -1;
+        np->destroy(n);
+        if (reg.errs.empty() && reg.dtors != d0 + expect)
+            return bad(cls, o0, mc::fmt("lifetime: destroy() ran %ld destructors, expected %ld", reg.dtors - d0, expect));
+        return finish(cls, o0);
+    }
+    string key() override
+    {
+        if (conf < 0)
+            return "unconfigured";
+        vector<int> ord;
+        string why;
+        bool ok = walk(ord, why);
+        string k = mc::fmt("%d|", conf) + ints(ord) + (ok ? "|" : "!|");
+        for (size_t c = 0; c < role.size(); c++)
+        {
+            k += mc::fmt("%d", role[c]);
+            for (int x : kids[c])
+                k += mc::fmt(">%d", x);
+            k += ',';
+        }
+        return k;
+    }
+    ~NestedModel()
+    {
+        np.reset();
+        if (g_nreg == &reg)
+            g_nreg = nullptr;
+    }
+};
+
 MC_INIT
 {
     static const size_t ES[] = {8, 16, 24};
@@ -1237,6 +1539,9 @@ MC_INIT
         for (size_t e : ES2)
             for (int n = 1; n <= maxcap(); n++)
                 c.push_back(Conf{mc::fmt("elem %zu x %d", e, n), e, [e, n] { return (Flavour *)new CFlavour(e, n); }});
+        // capacity 0: the pool must construct and answer null at once
+        for (size_t e : {(size_t)8, (size_t)12, (size_t)16, (size_t)20, (size_t)24})
+            c.push_back(Conf{mc::fmt("elem %zu x 0", e), e, [e] { return (Flavour *)new CFlavour(e, 0); }});
         PoolModel *m = new PoolModel("c_pool", c, false, true);
         m->nprimary = np;
         return std::unique_ptr<mc::Model>(m);
@@ -1250,6 +1555,9 @@ MC_INIT
         for (size_t e : ES2)
             for (int n = 1; n <= maxcap(); n++)
                 c.push_back(Conf{mc::fmt("elem %zu x %d", e, n), e, [e, n] { return (Flavour *)new XFlavour(e, n); }});
+        // capacity 0: the pool must construct and answer null at once
+        for (size_t e : {(size_t)8, (size_t)12, (size_t)16, (size_t)20, (size_t)24})
+            c.push_back(Conf{mc::fmt("elem %zu x 0", e), e, [e] { return (Flavour *)new XFlavour(e, 0); }});
         PoolModel *m = new PoolModel("cxx_pool", c, true, true);
         m->nprimary = np;
         return std::unique_ptr<mc::Model>(m);
@@ -1262,7 +1570,16 @@ MC_INIT
         sconfs<Tracked<16, 8>>(c, "T(size 16, align 8)", mx);
         sconfs<Tracked<24, 8>>(c, "T(size 24, align 8)", mx);
         sconfs<Tracked<32, 16>>(c, "T(size 32, align 16)", mx); // over-aligned
-        return std::unique_ptr<mc::Model>(new PoolModel("static_object_pool", c, false, false) /* no reset in its API */);
+        int np = (int)c.size();
+        // capacity 0 (std::array<cell,0>: no storage at all): must construct, and create() must answer null at once
+        c.push_back(sconf<Tracked<4, 4>, 0>("T(size 4, align 4)"));
+        c.push_back(sconf<Tracked<8, 8>, 0>("T(size 8, align 8)"));
+        c.push_back(sconf<Tracked<16, 8>, 0>("T(size 16, align 8)"));
+        c.push_back(sconf<Tracked<24, 8>, 0>("T(size 24, align 8)"));
+        c.push_back(sconf<Tracked<32, 16>, 0>("T(size 32, align 16)"));
+        PoolModel *m = new PoolModel("static_object_pool", c, false, false); /* no reset in its API */
+        m->nprimary = np;
+        return std::unique_ptr<mc::Model>(m);
     });
     // ---- large capacities (tree shape; see struct Large)
     mc::add_check("pools_large", [] {
@@ -1307,5 +1624,7 @@ MC_INIT
     // ---- C pool fed from several zones (pool_engage again without pool_init)
     mc::add_bfs("c_pool_zones", [] { return std::unique_ptr<mc::Model>(new ZonesModel); });
     mc::add_check("c_pool_zones_large", zones_large_case);
+    // ---- elements whose constructor / destructor call the pool again
+    mc::add_bfs("static_object_pool_nested", [] { return std::unique_ptr<mc::Model>(new NestedModel); });
 }
 MC_MAIN
